@@ -181,6 +181,28 @@ def step(it, v, st):
                             else:
                                 outs.append((item, inner2, st4))
         return outs
+    if k == "it:filter_map":
+        inner, f = v.fields
+        outs = []
+        work = [(inner, st, 0)]
+        while work:
+            cur, s0, n = work.pop()
+            if n > MAX_DRIVE:
+                raise Undecided("a filter_map does not terminate within the bound")
+            for item, inner2, st2 in step(it, cur, s0):
+                if item is None:
+                    outs.append((None, it_adapt("filter_map", inner2, f), st2))
+                    continue
+                for kind_, val, st3 in _apply(it, f, [item], st2):
+                    if kind_ != "ret":
+                        raise Undecided("a filter_map closure can panic")
+                    if is_opt(val) and val.vi == 1:
+                        outs.append((val.field(0), it_adapt("filter_map", inner2, f), st3))
+                    elif is_opt(val):
+                        work.append((inner2, st3, n + 1))
+                    else:
+                        raise Undecided("a filter_map closure returns %r" % (val,))
+        return outs
     if k == "it:enumerate":
         inner, i = v.fields
         outs = []
@@ -327,7 +349,7 @@ def to_iter(it, v, st):
 
 
 # ---- the call table -----------------------------------------------------------------------------------------------------------
-ADAPTORS = {"map": 2, "filter": 2, "take_while": 2, "skip_while": 2, "take": 2, "skip": 2, "zip": 2, "chain": 2}
+ADAPTORS = {"map": 2, "filter": 2, "filter_map": 2, "take_while": 2, "skip_while": 2, "take": 2, "skip": 2, "zip": 2, "chain": 2}
 TRANSPARENT = {"copied", "cloned", "fuse", "into_iter", "iter", "iter_mut", "by_ref"}
 
 
